@@ -555,6 +555,14 @@ func (en *env) boolOf(v val, at ast.Expr) bool {
 		return v.b
 	case 'a':
 		return en.w.Flag(v.a)
+	case 'c':
+		if at == nil { // a three-way comparator's result, read as "orders before"
+			return en.w.Cmp(v.a, v.a2) < 0
+		}
+	case 'i':
+		if at == nil {
+			return v.i < 0
+		}
 	}
 	if at == nil {
 		panic(Unsupported{"value does not reduce to a boolean"})
@@ -719,6 +727,9 @@ func (en *env) expr(x ast.Expr) val {
 					return val{kind: 'i', i: l.i + r.i}
 				}
 				return val{kind: 'i', i: l.i - r.i}
+			}
+			if l.kind == 'a' && r.kind == 'a' && e.Op == token.SUB {
+				return val{kind: 'c', a: l.a, a2: r.a} // sign of a difference = three-way comparison
 			}
 			if l.kind == 'a' {
 				return val{kind: 'a', a: "(" + l.a + e.Op.String() + en.atomText(r, e.Y) + ")"}
